@@ -239,9 +239,10 @@ func init() {
 							}
 							_, err, pn = lx.Eval(context.Background(), ast, scope)
 						case "load-file":
-							dir := filepath.Join(vf.VerifDir, ".work", "c17", fmt.Sprint(os.Getpid()))
+							// (a path with a blank: the module name is taken from a text line)
+							dir := filepath.Join(vf.VerifDir, ".work", "c17 files", fmt.Sprint(os.Getpid()))
 							os.MkdirAll(dir, 0o755)
-							module = filepath.Join(dir, "prog.lisp")
+							module = filepath.Join(dir, "my prog.lisp")
 							os.WriteFile(module, []byte(p.text), 0o644)
 							_, err, pn = lx.Eval(context.Background(), types.List{Val: []types.MalType{types.Symbol{Val: "load-file"}, module}}, scope)
 						}
